@@ -73,9 +73,11 @@ Overlay(c, off, e) ==
 (* un-synced operations of an inode *)
 OpWrite(off, len, src) == [k |-> "write", off |-> off, len |-> len, src |-> src]
 OpTrunc(len)           == [k |-> "trunc", off |-> 0, len |-> len, src |-> ""]
+OpUtime(tag)           == [k |-> "utime", off |-> 0, len |-> 0, src |-> tag]   \* set the modification time
 
 ApplyOp(c, op, zero) ==
-  IF op.k = "trunc"
+  IF op.k = "utime" THEN c
+  ELSE IF op.k = "trunc"
   THEN IF op.len <= CLen(c) THEN Take(c, op.len) ELSE Norm(c \o Zeros(op.len - CLen(c)))
   ELSE Overlay(c, op.off, IF zero THEN Ext("zero", 0, op.len) ELSE Ext(op.src, 0, op.len))
 
@@ -83,8 +85,22 @@ RECURSIVE ApplyOps(_, _, _)
 ApplyOps(c, ops, zero) ==
   IF ops = <<>> THEN c ELSE ApplyOps(ApplyOp(c, Head(ops), zero), Tail(ops), zero)
 
-Inode(dur) == [dur |-> dur, pend |-> <<>>]
+(***************************************************************************)
+(* Modification time (DiskCache keeps an entry's expiry there): a TAG, not *)
+(* a number - "pre:<name>" (what the file carried before the save),        *)
+(* "t<event>" (the value an utimensat call set) or "now" (never set        *)
+(* explicitly since the last change of the content: the time of the write).*)
+(* It is inode metadata: durable with fsync, otherwise it follows the      *)
+(* prefix of un-synced operations that reached the disk.                   *)
+(***************************************************************************)
+RECURSIVE MtAfter(_, _)
+MtAfter(mt, ops) ==
+  IF ops = <<>> THEN mt
+  ELSE MtAfter(IF Head(ops).k = "utime" THEN Head(ops).src ELSE "now", Tail(ops))
+
+Inode(dur, mt) == [dur |-> dur, pend |-> <<>>, mt |-> mt]
 Vol(i) == ApplyOps(i.dur, i.pend, FALSE)
+VolMt(i) == MtAfter(i.mt, i.pend)
 
 (***************************************************************************)
 (* File-system state: dir (name -> inode index), dirs (directory names),   *)
@@ -104,7 +120,8 @@ FsInit(files, dirs) ==
                 CHOOSE i \in 1..Len(files) : files[i].name = n],
    dirs |-> {dirs[i] : i \in 1..Len(dirs)},
    ino  |-> [i \in 1..Len(files) |->
-                Inode(IF files[i].len = 0 THEN <<>> ELSE <<Ext("pre:" \o files[i].name, 0, files[i].len)>>)],
+                Inode(IF files[i].len = 0 THEN <<>> ELSE <<Ext("pre:" \o files[i].name, 0, files[i].len)>>,
+                      "pre:" \o files[i].name)],
    dlog |-> <<>>,
    npre |-> Len(files)]     \* inodes above npre were created by the save itself
 
@@ -116,29 +133,31 @@ FsOpen(f, name, creat, trunc) ==
   IF Exists(f, name)
   THEN IF trunc /\ CLen(Vol(Ino(f, name))) > 0 THEN AddOp(f, name, OpTrunc(0)) ELSE f
   ELSE IF creat
-       THEN [f EXCEPT !.ino = Append(@, Inode(<<>>)),
+       THEN [f EXCEPT !.ino = Append(@, Inode(<<>>, "now")),
                       !.dir = (name :> (Len(f.ino) + 1)) @@ @,
                       !.dlog = Logged(f)]
        ELSE f
 FsWrite(f, name, off, len, src) == IF len = 0 THEN f ELSE AddOp(f, name, OpWrite(off, len, src))
 FsTrunc(f, name, len) == AddOp(f, name, OpTrunc(len))
-FsSync(f, name) == [f EXCEPT !.ino[f.dir[name]] = Inode(Vol(@))]
+FsUtime(f, name, tag) == AddOp(f, name, OpUtime(tag))
+FsSync(f, name) == [f EXCEPT !.ino[f.dir[name]] = Inode(Vol(@), VolMt(@))]
 FsRename(f, a, b) == [f EXCEPT !.dir = (b :> f.dir[a]) @@ Without(@, a), !.dlog = Logged(f)]
 FsUnlink(f, name) == [f EXCEPT !.dir = Without(@, name), !.dlog = Logged(f)]
 FsMkdir(f, name) == [f EXCEPT !.dirs = @ \cup {name}, !.dlog = Logged(f)]
 FsRmdir(f, name) == [f EXCEPT !.dirs = @ \ {name}, !.dlog = Logged(f)]
 FsDirSync(f) == [f EXCEPT !.dlog = <<>>]
 \* everything volatile becomes durable (a completed earlier save that has long reached the disk)
-FsQuiesce(f) == [f EXCEPT !.ino = [i \in DOMAIN @ |-> Inode(Vol(@[i]))], !.dlog = <<>>]
+FsQuiesce(f) == [f EXCEPT !.ino = [i \in DOMAIN @ |-> Inode(Vol(@[i]), VolMt(@[i]))], !.dlog = <<>>]
 
 (***************************************************************************)
 (* Events: the vocabulary shared by the recorded system calls (T_CrashFS)  *)
 (* and the protocol models (CrashSave).  Records carry the fields their op *)
 (* needs: open{name,creat,trunc} write{name,off,len,src} trunc{name,len}   *)
 (* fsync{name} rename{from,to} unlink{name} mkdir{name} rmdir{name} dirsync*)
+(* utime{name,src}                                                         *)
 (***************************************************************************)
 Applicable(f, e) ==
-  CASE e.op \in {"write", "trunc", "fsync", "unlink"} -> Exists(f, e.name)
+  CASE e.op \in {"write", "trunc", "fsync", "unlink", "utime"} -> Exists(f, e.name)
     [] e.op = "rename" -> Exists(f, e.from)
     [] e.op \in {"open", "mkdir", "rmdir", "dirsync"} -> TRUE
     [] OTHER -> FALSE
@@ -147,6 +166,7 @@ ApplyEv(f, e) ==
   CASE e.op = "open"    -> FsOpen(f, e.name, e.creat, e.trunc)
     [] e.op = "write"   -> FsWrite(f, e.name, e.off, e.len, e.src)
     [] e.op = "trunc"   -> FsTrunc(f, e.name, e.len)
+    [] e.op = "utime"   -> FsUtime(f, e.name, e.src)
     [] e.op = "fsync"   -> FsSync(f, e.name)
     [] e.op = "rename"  -> FsRename(f, e.from, e.to)
     [] e.op = "unlink"  -> FsUnlink(f, e.name)
@@ -183,6 +203,11 @@ ContentOf(i, o) ==
                                (IF o.m > 0 THEN <<[i.pend[o.j + 1] EXCEPT !.len = o.m]>> ELSE <<>>),
                              FALSE)
 
+MtimeOf(i, o) ==
+  CASE o.cls \in {"durable", "stale"} -> i.mt
+    [] o.cls \in {"full", "zeros"}    -> VolMt(i)
+    [] o.cls = "prefix" -> MtAfter(i.mt, SubSeq(i.pend, 1, o.j) \o (IF o.m > 0 THEN <<i.pend[o.j + 1]>> ELSE <<>>))
+
 \* directory states that may be on disk
 DirViews(f, strict) == IF strict THEN {DirView(f)} \cup {f.dlog[k] : k \in 1..Len(f.dlog)} ELSE {DirView(f)}
 
@@ -202,6 +227,7 @@ FileRec(f, dv, name, o) ==
       c == ContentOf(i, o)
   IN [name |-> name, cls |-> o.cls, len |-> CLen(c), vlen |-> CLen(Vol(i)), dlen |-> CLen(i.dur),
       born |-> dv.dir[name] > f.npre,   \* created by the save under study
+      mt |-> MtimeOf(i, o),             \* modification time tag
       parts |-> c]
 
 \* the post-crash disk: what a recovery will find
